@@ -56,7 +56,7 @@ package grpcutil
 
 // The dialer consults the same map: an address that is not registered is refused.
 //@ contract (*MultiClientConn).getMapDialer$1
-//@   shape sig=(ctx context.Context,addr string)( net.Conn, error);loops=;lits=0;fv=connFn
+//@   shape sig=(ctx context.Context,addr string)( net.Conn, error);loops=;lits=0;fv=connFn;outerlits=1
 //@   props C11
 //@   requires mcc != nil
 //@   ensures @unknown_refused: old(!(addr in mcc.connMap)) ==> result0 == nil && result1 != nil
